@@ -16,7 +16,8 @@ Proved here:
 * `C14_dispatch`   `linkage` routes exactly the five methods to mst (single) or nnchain
                    (generated table, `decide`), never to generic/primitive.
 
-NOT proved: the bound for `nnchain` (needs the chain invariant "chain entries are live and pairwise
+NOT proved when this header was written — NOW PROVED under explicit hypotheses in the section
+appended at the end of this file (`C14_nnchain*`, `C14_linkage*`): the bound for `nnchain` (needs the chain invariant "chain entries are live and pairwise
 distinct" plus an Abel-summation argument; the measured worst case is 3.5 n²).  For nnchain the
 claim rests on (i) the exact model/hook count correspondence and (ii) the oracle checking the bound
 on the real crate on adversarial inputs (sorted / reverse-sorted entries, all ties, geometric
@@ -24,6 +25,7 @@ progressions with chains of length ~n) up to n = 2000.
 -/
 import Kodama.Lemmas.MstRun
 import Kodama.Lemmas.Tail
+import Kodama.Props.C12
 namespace Kodama
 variable {α : Type} [Num α]
 
@@ -104,5 +106,134 @@ theorem C14_dispatch :
     ∀ m : Method, m.requiresSorting = true →
       (dispatch m = .mst ∧ m = .single) ∨ (dispatch m = .nnchain ∧ m.intoMethodChain.isSome) := by
   intro m; cases m <;> simp [Method.requiresSorting, dispatch, Method.intoMethodChain]
+
+end Kodama
+
+/-!
+### Appended: `nnchain_with` (chain invariant, `Lemmas/Chain{Mat,Scan,Inv,Iter,Run,Exact}.lean`)
+
+* `C14_nnchain`    `nnchain_with` on every valid matrix, under `OrderLaws α`, NaN-free (squared) input
+                   and the named algebraic hypothesis `ChainReducible α mc`: at most `7·n(n+1) − 10`
+                   index computations (`C14_nnchain_tight`), in particular ≤ 10 n² + 50 n.  Proof: the
+                   chain entries are pairwise distinct live clusters (`ChainL`), so with ℓ live
+                   clusters each push costs ≤ 2ℓ (one test + at most one improvement per scanned
+                   cluster), the restart scan ≤ 1 + 2ℓ, the update = 2(ℓ−2) (+1 for Ward); an outer
+                   iteration pops at most 3 entries, and the potential
+                   `acc + 7·ℓ(ℓ+1) ≤ 7·n(n+1) + 2·ℓ·chain.len` (Abel summation in disguise: a chain
+                   entry pushed when ℓ clusters were live is charged 2ℓ) is an invariant
+                   (`ChainInv.work`, `chainWork_step`).  The model's `acc` equals the instrumented
+                   crate's count EXACTLY on every correspondence case, so this is a statement about
+                   the code's control flow, not about a re-implementation.
+* `C14_nnchain_single_complete`  `Single` / `Complete` without the reducibility hypothesis;
+  `C14_nnchain_exact`  all five methods in exact arithmetic.
+* `C14_linkage`    `linkage_with` for the five methods (generated dispatch table: single → mst, exact
+                   count; complete/average/weighted/Ward → nnchain): ≤ 10 n² + 50 n under the same
+                   hypotheses; `C14_linkage_single_complete` unconditionally (single needs NO
+                   hypothesis on the numbers at all, complete `OrderLaws` + NaN-free input).
+
+NOT proved: `ChainReducible` for average / weighted / Ward over IEEE floats (FALSE there, ~11% of tied
+updates).  For these three methods on floats the bound rests on (i) the exact model/hook count
+correspondence and (ii) the oracle checking the bound on the real crate on adversarial inputs up to
+n = 2000; the measured worst case is 3.5 n².
+-/
+namespace Kodama
+variable {α : Type} [Num α]
+
+
+/-- The bound the potential argument gives: `acc ≤ 7·n(n+1) − 10`. -/
+theorem C14_nnchain_tight (L : OrderLaws α) (chk : Bool) (mc : MethodChain) (hred : ChainReducible α mc)
+    (st st' : State α) (d d' : Dendrogram α) (data : Array α) (n : Nat) (M' : Mat α)
+    (h2 : 2 ≤ n) (hs : n < 2147483648) (hl : 2 * data.size = n * (n - 1))
+    (hnan : NoNaNData (squareData mc.intoMethod data))
+    (h : nnchainWith chk mc st d data n = .ok (st', d', M')) :
+    M'.acc + 10 ≤ 7 * (n * (n + 1)) := by
+  obtain ⟨s1, hres, heq⟩ := nnchainWith_eq L chk mc hred st d data n h2 hs hl hnan
+  rw [heq] at h
+  obtain ⟨r, _, hr⟩ := bind_ok.mp h
+  simp only [pure_ok, Prod.mk.injEq] at hr
+  rw [← hr.2.2]
+  exact hres.acc
+
+theorem C14_nnchain (L : OrderLaws α) (chk : Bool) (mc : MethodChain) (hred : ChainReducible α mc)
+    (st st' : State α) (d d' : Dendrogram α) (data : Array α) (n : Nat) (M' : Mat α)
+    (h2 : 2 ≤ n) (hs : n < 2147483648) (hl : 2 * data.size = n * (n - 1))
+    (hnan : NoNaNData (squareData mc.intoMethod data))
+    (h : nnchainWith chk mc st d data n = .ok (st', d', M')) :
+    M'.acc ≤ 10 * (n * n) + 50 * n := by
+  have := C14_nnchain_tight L chk mc hred st st' d d' data n M' h2 hs hl hnan h
+  have e : n * (n + 1) = n * n + n := by rw [Nat.mul_add, Nat.mul_one]
+  rw [e] at this
+  omega
+
+theorem C14_nnchain_single_complete (L : OrderLaws α) (chk : Bool) (mc : MethodChain)
+    (hmc : mc = .single ∨ mc = .complete) (st st' : State α) (d d' : Dendrogram α)
+    (data : Array α) (n : Nat) (M' : Mat α) (h2 : 2 ≤ n) (hs : n < 2147483648)
+    (hl : 2 * data.size = n * (n - 1)) (hnan : NoNaNData data)
+    (h : nnchainWith chk mc st d data n = .ok (st', d', M')) :
+    M'.acc ≤ 10 * (n * n) + 50 * n :=
+  C14_nnchain L chk mc (chainReducible_single_complete mc hmc) st st' d d' data n M' h2 hs hl
+    (by rw [squareData_single_complete mc hmc]; exact hnan) h
+
+theorem C14_nnchain_exact {K : Type} [Field K] [LinearOrder K] [IsStrictOrderedRing K] [Num K]
+    (F : FieldLaws K) (hnn : ∀ x : K, Num.isNaN x = false) (chk : Bool) (mc : MethodChain)
+    (st st' : State K) (d d' : Dendrogram K) (data : Array K) (n : Nat) (M' : Mat K) (h2 : 2 ≤ n)
+    (hs : n < 2147483648) (hl : 2 * data.size = n * (n - 1))
+    (h : nnchainWith chk mc st d data n = .ok (st', d', M')) :
+    M'.acc ≤ 10 * (n * n) + 50 * n :=
+  C14_nnchain (orderLaws_of_fieldLaws F) chk mc (chainReducible_exact F hnn mc) st st' d d' data n M'
+    h2 hs hl (fun _ _ => hnn _) h
+
+/-- `linkage_with`, the five methods of C14, through the generated dispatch table. -/
+theorem C14_linkage (L : OrderLaws α) (chk : Bool) (m : Method)
+    (hm : m.requiresSorting = true)
+    (hred : ∀ mc, m.intoMethodChain = some mc → ChainReducible α mc)
+    (st st' : State α) (d d' : Dendrogram α) (data : Array α) (n : Nat) (M' : Mat α)
+    (h2 : 2 ≤ n) (hs : n < 2147483648) (hl : 2 * data.size = n * (n - 1))
+    (hnan : m ≠ .single → NoNaNData (squareData m data))
+    (h : linkageWith chk m st d data n = .ok (st', d', M')) :
+    M'.acc ≤ 10 * (n * n) + 50 * n := by
+  by_cases hsingle : m = .single
+  · subst hsingle
+    have : linkageWith chk .single st d data n = mstWith chk st d data n := by
+      unfold linkageWith; simp [dispatch]
+    rw [this] at h
+    exact C14_mst_bound chk st st' d d' data n M' h2 hs hl h
+  · cases hmc : m.intoMethodChain with
+    | none => cases m <;> simp [Method.intoMethodChain, Method.requiresSorting] at hmc hm
+    | some mc =>
+      rw [linkageWith_nnchain chk m mc hsingle hmc] at h
+      have hround := intoMethodChain_roundtrip m mc hmc
+      exact C14_nnchain L chk mc (hred mc hmc) st st' d d' data n M' h2 hs hl
+        (by rw [hround]; exact hnan hsingle) h
+
+/-- Single (no hypothesis on the numbers at all: mst) and complete (`OrderLaws` + NaN-free input). -/
+theorem C14_linkage_single_complete (L : OrderLaws α) (chk : Bool) (m : Method)
+    (hm : m = .single ∨ m = .complete)
+    (st st' : State α) (d d' : Dendrogram α) (data : Array α) (n : Nat) (M' : Mat α)
+    (h2 : 2 ≤ n) (hs : n < 2147483648) (hl : 2 * data.size = n * (n - 1))
+    (hnan : m = .complete → NoNaNData data)
+    (h : linkageWith chk m st d data n = .ok (st', d', M')) :
+    M'.acc ≤ 10 * (n * n) + 50 * n := by
+  rcases hm with rfl | rfl
+  · exact C14_linkage L chk .single rfl
+      (by intro mc hmc; simp only [Method.intoMethodChain, Option.some.injEq] at hmc
+          rw [← hmc]; exact chainReducible_single)
+      st st' d d' data n M' h2 hs hl (fun h => absurd rfl h) h
+  · exact C14_linkage L chk .complete rfl
+      (by intro mc hmc; simp only [Method.intoMethodChain, Option.some.injEq] at hmc
+          rw [← hmc]; exact chainReducible_complete)
+      st st' d d' data n M' h2 hs hl
+      (fun _ => by
+        have : squareData Method.complete data = data := by simp [squareData, Method.onSquares]
+        rw [this]; exact hnan rfl) h
+
+/-- Non-vacuity (hypotheses satisfiable: toy exact number type, valid 4-point matrix; see also the
+`example`s at the end of `Props/C12.lean`). -/
+example (st' : State Nat) (d' : Dendrogram Nat) (M' : Mat Nat)
+    (h : @nnchainWith Nat Spec.Toy.natNum true .complete State.new (Dendrogram.new 4)
+      (#[5, 2, 9, 7, 4, 1] : Array Nat) 4 = .ok (st', d', M')) :
+    M'.acc ≤ 10 * (4 * 4) + 50 * 4 :=
+  @C14_nnchain_single_complete Nat Spec.Toy.natNum Spec.Toy.natOrderLaws true .complete (Or.inr rfl)
+    _ st' _ d' _ 4 M' (by decide) (by decide) (by decide) (fun _ _ => rfl) h
 
 end Kodama
